@@ -15,4 +15,4 @@ INIT Init
 NEXT Next
 VIEW View
 INVARIANTS TypeOK RightHandler
-PROPERTIES OpenBinds Agreement Dispatch OneHandler NoCommon RemovedNeverRuns CommonMeansSuccess KnowledgeSources
+PROPERTIES OpenBinds Agreement Dispatch OneHandler NoCommon RemovedNeverRuns CommonMeansSuccess KnowledgeSources FirstOpFree
